@@ -10,6 +10,7 @@
 #include "position.hpp"
 #include "moveGen.hpp"
 #include "textio.hpp"
+#include "bitBoard.hpp"
 #undef private
 #undef protected
 #include "random.hpp"
@@ -90,6 +91,34 @@ static std::string handle(const std::vector<std::string>& a) {
             while (!t.empty() && t.back() == ' ') t.pop_back();
             return t;
         }
+        if (op == "tmg") {
+            // differential against the Lean model of the generator (Chess/TexelGen.lean): lists in generation order
+            Position pos = TextIO::readFEN(vFenOf(a, 1, a.size()));
+            bool inChk = MoveGen::inCheck(pos);
+            MoveList ps; MoveGen::pseudoLegalMoves(pos, ps);
+            std::string L, G;
+            for (int i = 0; i < ps.size; i++) {
+                L += MoveGen::isLegal(pos, ps[i], inChk) ? '1' : '0';
+                G += MoveGen::givesCheck(pos, ps[i]) ? '1' : '0';
+            }
+            if (ps.size == 0) { L = "-"; G = "-"; }
+            MoveList rm; MoveGen::pseudoLegalMoves(pos, rm); MoveGen::removeIllegal(pos, rm);
+            MoveList ev; if (inChk) MoveGen::checkEvasions(pos, ev);
+            MoveList cp; MoveGen::pseudoLegalCaptures(pos, cp);
+            MoveList cc; MoveGen::pseudoLegalCapturesAndChecks(pos, cc);
+            std::ostringstream os;
+            os << (inChk ? 1 : 0) << " P " << mvs(ps) << " L " << L << " G " << G << " R " << mvs(rm)
+               << " E " << mvs(ev) << " C " << mvs(cp) << " K " << mvs(cc);
+            std::string s = os.str(), t;
+            for (char c : s) if (!(c == ' ' && !t.empty() && t.back() == ' ')) t += c;
+            while (!t.empty() && t.back() == ' ') t.pop_back();
+            return t;
+        }
+        if (op == "imask" && a.size() == 3) {
+            U64 pc = vToU64(a[1]), s = vToU64(a[2]);
+            if (s > 63 || (pc != 3 && pc != 4)) return "bad-op";
+            return vHex(pc == 3 ? BitBoard::rMasks[Square((int)s)] : BitBoard::bMasks[Square((int)s)]);
+        }
         if (op == "gengame" && a.size() >= 4) {
             // random legal game: prints the FEN of every position reached (input generator, not part of a diff)
             U64 seed = vToU64(a[1]); int plies = (int)vToU64(a[2]);
@@ -148,7 +177,7 @@ static std::string handle(const std::vector<std::string>& a) {
             for (const Move& m : pv) v.push_back(TextIO::moveToUCIString(m));
             return "pv " + vJoin(v);
         }
-        if (op == "atk" && a.size() == 4) {
+        if ((op == "atk" || op == "tatk") && a.size() == 4) {
             U64 pc = vToU64(a[1]), s = vToU64(a[2]), occ = vToU64(a[3]);
             if (pc < 1 || pc > 12 || s > 63) return "bad-op";
             Square sq((int)s);
